@@ -14,6 +14,9 @@
 #endif
 #include <stdlib.h>
 #include "rt_api.h"
+#ifndef DYN
+#define DYN 0
+#endif
 
 struct obj { int v; };
 struct obj *OBJ; int A, B;
@@ -22,8 +25,10 @@ struct obj *OBJ; int A, B;
 #define G_SEQ(r) (44 + (r))
 #define G_SNAP(u, r) (48 + 4 * (u) + (r))
 #define NSL 4
-static inline void cs_begin(void) { uint32_t r = rt_self(); rt_gset(G_SEQ(r), rt_gget(G_SEQ(r)) + 1); rt_gset(G_OPEN(r), 1); }
-static inline void cs_end(void) { uint32_t r = rt_self(); rt_gset(G_OPEN(r), 0); }
+/* G_OPEN is the ghost nesting depth of a slot (a signal handler runs on the interrupted thread's slot and may nest inside its
+ * section); a new outermost section gets a new instance number */
+static inline void cs_begin(void) { uint32_t r = rt_self(); if (rt_gget(G_OPEN(r)) == 0) rt_gset(G_SEQ(r), rt_gget(G_SEQ(r)) + 1); rt_gset(G_OPEN(r), rt_gget(G_OPEN(r)) + 1); }
+static inline void cs_end(void) { uint32_t r = rt_self(); rt_gset(G_OPEN(r), rt_gget(G_OPEN(r)) - 1); }
 static inline void sync_call(int u) { for (int r = 1; r < NSL; r++) rt_gset(G_SNAP(u, r), rt_gget(G_OPEN(r)) ? rt_gget(G_SEQ(r)) : 0); }
 static inline void sync_ret(int u) {
   for (int r = 1; r < NSL; r++) {
@@ -71,6 +76,42 @@ static inline void section(int nested) {
 #endif
   LEAVE();
 }
+#if FLAVOR != 3
+/* C19: signal handler with a read-side critical section; runs on the interrupted thread's slot */
+#if FLAVOR == 4
+#define READER_CTR() (URCU_TLS(urcu_bp_reader) ? URCU_TLS(urcu_bp_reader)->ctr : 0)
+#else
+#define READER_CTR() (URCU_TLS(rcu_reader).ctr)
+#endif
+void sig_handler(void) {
+  unsigned long c0 = READER_CTR(); int on0 = rcu_read_ongoing();
+  section(0);
+  rt_assert(READER_CTR() == c0, "signal handler left the interrupted thread's reader word changed");
+  rt_assert(rcu_read_ongoing() == on0, "signal handler left rcu_read_ongoing() changed");
+  rt_cover(c0 != 0 || on0, "handler interrupted an open read-side section");
+  rt_cover(1, "signal handler ran");
+}
+#endif
+/* C15(a): a reader that registers, runs a section, unregisters - twice - while grace periods run */
+void reader_dyn(void) {
+#if FLAVOR != 4
+  rcu_register_thread();
+#endif
+#if FLAVOR == 3
+  cs_begin(); section(0); cs_end(); rcu_unregister_thread();
+  rcu_register_thread(); cs_begin(); section(0); cs_end(); rcu_unregister_thread();
+#else
+  section(0);
+#if FLAVOR != 4
+  rcu_unregister_thread(); rcu_register_thread();
+#endif
+  section(0);
+#if FLAVOR != 4
+  rcu_unregister_thread();
+#endif
+#endif
+  rt_cover(1, "reader registered, ran, unregistered twice");
+}
 void reader(void) {
   section(NESTED);
 #if FLAVOR == 3
@@ -95,4 +136,12 @@ static inline void update(int u) {
 void updater(void) { update(0); }
 /* second concurrent caller: only waits (its wait may be merged into the first caller's grace period) */
 void updater2(void) { sync_call(1); synchronize_rcu(); sync_ret(1); rt_cover(1, "second synchronize_rcu caller returned"); }
-void epilogue(void) { rt_assert(B == 1, "updater completed"); }
+void epilogue(void) {
+  rt_assert(B == 1, "updater completed");
+#if DYN && FLAVOR <= 2
+  rt_assert(cds_list_empty(&registry) && registry.next == &registry && registry.prev == &registry, "after every thread unregistered the registry is an empty well-formed list");
+#endif
+#if DYN && FLAVOR == 3
+  rt_assert(cds_list_empty(&registry) && registry.prev == &registry, "after every thread unregistered the registry is an empty well-formed list");
+#endif
+}
